@@ -370,7 +370,7 @@ def install_core(R):
     def sorted_hook(eng, fr, arg, key, node):
         """sorted(zip(keys, vals), key=lambda x: x[0]) where keys is a permutation of range(n): element k of the output is
         the pair whose key is k (sortedness + lemma SortedPermOfRange: n distinct ints of [0,n) in increasing order are 0..n-1)."""
-        if key is None or not (key.k == "py" and isinstance(key.t.node, _ast.Lambda)):
+        if key is None or not (key.k == "py" and isinstance(getattr(key.t, "node", None), _ast.Lambda)):
             return None
         lam = key.t.node
         b = lam.body
